@@ -66,3 +66,26 @@ def _m4():
             return re.sub(r'([$ ])', r'$\1', string)
         return string.replace('$', '$$')
     syntax.Writer.escape_str = staticmethod(escape_str)
+
+
+@mutant('within_dir_unescaped_dots')
+def _m5():
+    # the regex as it was before the fix: every two-character component becomes PAR
+    from bfg9000.builtins import path as bpath
+
+    def within_directory(path, directory):
+        suffix = path.relpath(directory.parent(), localize=False)
+        suffix = re.sub(r'(^|/)..(?=/|$)', r'\1PAR', suffix)
+        return directory.append(suffix)
+    bpath.within_directory = within_directory
+
+
+@mutant('within_dir_no_par')
+def _m6():
+    # parent references no longer rewritten: outputs escape the intermediate directory
+    from bfg9000.builtins import path as bpath
+
+    def within_directory(path, directory):
+        suffix = path.relpath(directory.parent(), localize=False)
+        return directory.append(suffix)
+    bpath.within_directory = within_directory
